@@ -16,7 +16,7 @@ ID = "C09"
 RULE = (
     "valid set: every (api dir, version, type) module found by an on-disk walk of src/kio/schema (666) and every "
     "pinned api key (88), exhaustively: load_entity_module / load_entity_schema / load_payload_module / "
-    "load_request_schema / load_response_schema must return the module at that path and the unique non-nested class "
+    "load_request_schema / load_response_schema / load_response_from_request / load_request_from_response must return the module at that path and the unique non-nested class "
     "whose __type__/__version__ match; disk set == index set; api_key_map injective and equal to the pins. Invalid "
     "set: every near-miss (version min-1/max+1, key -1/max+1 and gaps, type not offered by that API, "
     "EntityType.nested) plus Hypothesis-drawn arbitrary ints/strings for key, name, version: must raise "
@@ -70,6 +70,16 @@ def check_valid(api: str, version: int, etype: str, modname: str) -> list:
         key = pins()["apis"][api][etype]["api_key"]
         calls.append(("load_payload_module", (key, version, et), mod))
         calls.append((f"load_{etype}_schema", (key, version), cls))
+        # the counterpart lookups are load_* functions of kio.index too: from this class (found on disk) they must lead to
+        # the unique top-level class of the sibling module on disk
+        other = "response" if etype == "request" else "request"
+        sibling = modname.rsplit(".", 1)[0] + "." + other
+        try:
+            sib = [c for c in D.module_classes(sibling) if c.__type__.name == other and c.__version__ == version]
+        except ModuleNotFoundError:
+            sib = []
+        if len(sib) == 1:
+            calls.append((f"load_{other}_from_{etype}", (cls,), sib[0]))
     for name, args, want in calls:
         try:
             got = getattr(I, name)(*args)
